@@ -26,8 +26,13 @@ def observer(got, pred, sp, call, sg, prog, ctx, part):
         bad('number of constraints: %d, expected %d' % (len(cons_got), len(cons_pred)))
         return
     # (1) evaluate / violation / is_satisfied, exactly, at rational points
+    from fractions import Fraction
+    names_ = sorted(ctx.points[0]) if ctx.points else []
+    # integer-valued points handed over as Python ints (a constraint's meaning must not depend on the NumPy dtype its
+    # right-hand side happened to have: no wrap-around, no half-precision rounding)
+    int_points = [{n: Fraction(v) for n in names_} for v in (2, 2049)] + [{n: Fraction((7, 0, -1, 300)[k % 4]) for k, n in enumerate(names_)}]
     for i, (c, cp) in enumerate(zip(cons_got, cons_pred)):
-        for pt in ctx.points:
+        for pt in list(ctx.points) + int_points:
             try:
                 if interp.is_rational_fragment(cp['den']):
                     val = interp.eval_exact(cp['den'], pt, ctx.pars)
@@ -39,6 +44,8 @@ def observer(got, pred, sp, call, sg, prog, ctx, part):
                 continue
             viol = max(Fr(0), val) if cp['sense'] == '<=' else max(Fr(0), -val) if cp['sense'] == '>=' else abs(val)
             vals = progjudge.fvals(pt)
+            if pt in int_points:
+                vals = {k: int(v) for k, v in pt.items()}
             try:
                 have_v = float(c.violation(vals))
                 have_e = float(c.evaluate(vals))
